@@ -132,4 +132,34 @@ theorem eraseA_split (ig : Ign) (fin : Option Nat) (e : Ev) (y : List MC) :
         simp only [OutK.out, List.cons_append, List.nil_append, List.cons.injEq] at h
         exact hrec x' h.2 (by simp [OutK.out, h.1])
 
+/-- with nothing ignored, the erasure is `roundBrackets` (the expected text of `C04.retained_concat`), for EVERY text -/
+theorem eraseA_none_round (μ : Mode) (t : List Char) (fin : Option Nat) :
+    (eraseA ⟨false, false, false⟩ μ t fin).map MC.round = (rbAll μ t).2 := by
+  induction t generalizing μ with
+  | nil => rfl
+  | cons c cs ih =>
+    simp only [eraseA, rbAll, List.map_append, ih]
+    congr 1
+    cases hk : classOf μ (norm c.toNat) (nxtOf cs fin) with
+    | bracket e =>
+      have hne : ((step μ (norm c.toNat)).2 == []) = false := by
+        unfold classOf at hk
+        simp only at hk
+        cases hs : (step μ (norm c.toNat)).2 with
+        | nil => rw [hs] at hk; simp only at hk; repeat' split at hk
+                 all_goals cases hk
+        | cons a l => rfl
+      rw [hne]
+      rcases bracket_class_char μ c _ e hk with ⟨rfl, rfl | rfl⟩ | ⟨rfl, rfl⟩ | ⟨rfl, rfl⟩ <;> rfl
+    | _ =>
+      have he : ((step μ (norm c.toNat)).2 == []) = true := by
+        unfold classOf at hk
+        simp only at hk
+        cases hs : (step μ (norm c.toNat)).2 with
+        | nil => rfl
+        | cons a l => rw [hs] at hk; cases hk
+      rw [he]; rfl
+
+theorem erase_none_roundBrackets (t : List Char) : erase ⟨false, false, false⟩ t = roundBrackets t :=
+  eraseA_none_round .N t none
 end Scan
